@@ -49,6 +49,7 @@ type e struct {
 	m        sync.Mutex
 	l        *rate.Limiter
 	lastSeen time.Time
+	dead     bool // removed by gc. Don't use it.
 }
 
 // Creates a ClientLimiter.
@@ -65,15 +66,22 @@ func NewClientLimiter(opts ClientLimiterOpts) *ClientLimiter {
 }
 
 func (cl *ClientLimiter) AllowN(addr netip.Addr, now time.Time, n int) bool {
-	e, _ := cl.m.LoadOrCompute(cl.mask(addr), func() *e { return &e{l: rate.NewLimiter(rate.Limit(cl.opts.Limit), cl.opts.Burst)} })
-	e.m.Lock()
-	e.lastSeen = now
-	ok := e.l.AllowN(now, n)
-	if verifhook.On {
-		verifhook.Ev("lim.cl", cl, addr, cl.mask(addr), now, n, ok)
+	key := cl.mask(addr)
+	for {
+		e, _ := cl.m.LoadOrCompute(key, func() *e { return &e{l: rate.NewLimiter(rate.Limit(cl.opts.Limit), cl.opts.Burst)} })
+		e.m.Lock()
+		if e.dead { // gc forgot this entry after we loaded it. Load again.
+			e.m.Unlock()
+			continue
+		}
+		e.lastSeen = now
+		ok := e.l.AllowN(now, n)
+		if verifhook.On {
+			verifhook.Ev("lim.cl", cl, addr, key, now, n, ok)
+		}
+		e.m.Unlock()
+		return ok
 	}
-	e.m.Unlock()
-	return ok
 }
 
 // Stop gc goroutine.
@@ -117,13 +125,17 @@ func (cl *ClientLimiter) gc() {
 		// bucket that is full again, otherwise (burst > limit * entryTtl)
 		// the client would get its burst back before it has earned it.
 		refilled := value.l.TokensAt(now) >= float64(cl.opts.Burst)
-		value.m.Unlock()
 		if lastSeen.Before(ddl) && refilled {
+			// Forget it while holding its lock. Otherwise a call that
+			// comes in between would spend from an entry that is about
+			// to be dropped, and the client would get a full bucket again.
+			value.dead = true
 			if verifhook.On {
 				verifhook.Gate("lim.gc", cl, key)
 			}
 			cl.m.Delete(key)
 		}
+		value.m.Unlock()
 		return true
 	})
 }
